@@ -56,6 +56,9 @@ Record se_cfg := mkCfg {
 
 Inductive se_op :=
 | OpRx (key now : Z)         (* coap_endpoint_get_session for a datagram from key *)
+| OpRxV (key now victim : Z) (* the same for a new peer, the session evicted because of the idle
+                                limit being named: when several idle sessions are equally old
+                                the property does not say which of them goes *)
 | OpAdd (sid h : Z)          (* holder h takes a reference on sid *)
 | OpRem (sid h : Z)          (* holder h releases its reference *)
 | OpDq (sid : Z) (empty : bool)   (* the delay queue of sid becomes empty / non-empty *)
@@ -151,20 +154,38 @@ Definition se_oldest (tbl : list se_sess) : option se_sess := se_oldest_from Non
 Definition se_new_sess (sid key now : Z) : se_sess :=
   mkSess sid key 0 [] now se_state_established true.
 
+(* the session the code evicts: "max_idle_sessions > 0 && num_idle >= max_idle_sessions" -> oldest *)
+Definition se_rx_evict (c : se_cfg) (tbl : list se_sess) : option se_sess :=
+  if (0 <? cf_max_idle c) && (cf_max_idle c <=? se_count_idle tbl) then se_oldest tbl else None.
+
+(* a new peer arrives and [evict] is pushed out *)
+Definition se_rx_new (st : se_st) (key now : Z) (evict : option se_sess) : se_st :=
+  let tbl1 := match evict with Some o => se_del (ss_id o) (st_tbl st) | None => st_tbl st end in
+  let ev1 := match evict with Some o => [SeDel (ss_id o); SeFree (ss_id o)] | None => [] end in
+  let sid := st_next st in
+  mkSt (tbl1 ++ [se_new_sess sid key now]) (sid + 1)
+       (st_log st ++ ev1 ++ [SeNew sid key; SeRx key sid]) (st_alive st) (st_leaked st).
+
+Definition se_rx_hit (st : se_st) (s : se_sess) (key now : Z) : se_st :=
+  mkSt (se_upd (ss_id s) (se_set_last now) (st_tbl st)) (st_next st)
+       (st_log st ++ [SeRx key (ss_id s)]) (st_alive st) (st_leaked st).
+
 Definition se_rx (c : se_cfg) (st : se_st) (key now : Z) : se_st :=
   match se_find key (st_tbl st) with
-  | Some s =>
-      mkSt (se_upd (ss_id s) (se_set_last now) (st_tbl st)) (st_next st)
-           (st_log st ++ [SeRx key (ss_id s)]) (st_alive st) (st_leaked st)
-  | None =>
-      let evict :=
-        if (0 <? cf_max_idle c) && (cf_max_idle c <=? se_count_idle (st_tbl st))
-        then se_oldest (st_tbl st) else None in
-      let tbl1 := match evict with Some o => se_del (ss_id o) (st_tbl st) | None => st_tbl st end in
-      let ev1 := match evict with Some o => [SeDel (ss_id o); SeFree (ss_id o)] | None => [] end in
-      let sid := st_next st in
-      mkSt (tbl1 ++ [se_new_sess sid key now]) (sid + 1)
-           (st_log st ++ ev1 ++ [SeNew sid key; SeRx key sid]) (st_alive st) (st_leaked st)
+  | Some s => se_rx_hit st s key now
+  | None => se_rx_new st key now (se_rx_evict c (st_tbl st))
+  end.
+
+(* what the property allows as the victim: the limit is reached, the session is idle and no
+   idle session is older *)
+Definition se_valid_victim (c : se_cfg) (tbl : list se_sess) (o : se_sess) : bool :=
+  (0 <? cf_max_idle c) && (cf_max_idle c <=? se_count_idle tbl) && se_idle o &&
+  forallb (fun s => negb (se_idle s) || (ss_last o <=? ss_last s)) tbl.
+
+Definition se_rx_victim (c : se_cfg) (st : se_st) (key now victim : Z) : se_st :=
+  match se_find key (st_tbl st) with
+  | Some s => se_rx_hit st s key now
+  | None => se_rx_new st key now (se_get victim (st_tbl st))
   end.
 
 (* ------------------------------------------------------------------ coap_io_prepare_io_lkd *)
@@ -214,6 +235,7 @@ Definition se_free_context (st : se_st) : se_st :=
 Definition se_step (c : se_cfg) (st : se_st) (op : se_op) : se_st :=
   match op with
   | OpRx key now => se_rx c st key now
+  | OpRxV key now v => se_rx_victim c st key now v
   | OpAdd sid h => mkSt (se_upd sid (se_add_holder h) (st_tbl st)) (st_next st) (st_log st)
                         (st_alive st) (st_leaked st)
   | OpRem sid h => mkSt (se_upd sid (se_rem_holder h) (st_tbl st)) (st_next st) (st_log st)
@@ -234,10 +256,15 @@ Definition se_step (c : se_cfg) (st : se_st) (op : se_op) : se_st :=
 Definition se_live (sid : Z) (st : se_st) : bool :=
   match se_get sid (st_tbl st) with Some _ => true | None => false end.
 
-Definition se_op_ok (st : se_st) (op : se_op) : bool :=
+Definition se_op_ok (c : se_cfg) (st : se_st) (op : se_op) : bool :=
   st_alive st &&
   match op with
   | OpRx _ _ => true
+  | OpRxV key _ v =>
+      match se_find key (st_tbl st), se_get v (st_tbl st) with
+      | None, Some o => se_valid_victim c (st_tbl st) o
+      | _, _ => false
+      end
   | OpAdd sid _ => se_live sid st
   | OpRem sid h => match se_get sid (st_tbl st) with
                    | Some s => se_has h (ss_holders s)
@@ -254,7 +281,7 @@ Definition se_op_ok (st : se_st) (op : se_op) : bool :=
 Fixpoint se_run (c : se_cfg) (st : se_st) (ops : list se_op) : option se_st :=
   match ops with
   | [] => Some st
-  | op :: r => if se_op_ok st op then se_run c (se_step c st op) r else None
+  | op :: r => if se_op_ok c st op then se_run c (se_step c st op) r else None
   end.
 
 (* ------------------------------------------------------------------ event-log monitor
